@@ -302,6 +302,7 @@ def find_loops(body):
 
 
 AUTO_RULES = []
+R27A_LATE = {}   # unit -> [(`it.index@`, `(__iK - 1)`)]: proof blocks are inserted after the loops are rewritten; inside a converted loop they name the index the same way
 
 
 def annotate_loops(body, loops, unit):
@@ -380,6 +381,7 @@ def annotate_loops(body, loops, unit):
                        % (iv, iv, vec, inv, pat, vec, iv, iv, iv, l.get('body_proof', '').replace(itn, cur), inner.replace(itn, cur)))
                 body = body[:st] + new + body[close + 1:]
                 AUTO_RULES.append('R27a:%s:loop%d' % (unit, k))
+                R27A_LATE.setdefault(unit, []).append((itn, cur))
                 continue
             head = 'for %s in %s: %s\n' % (pat, l['it'], expr)
         body = body[:st] + head + ' ' + (l.get('inv') or '') + '\n{' + l.get('body_proof', '') + body[br + 1:]
@@ -530,6 +532,8 @@ class Unit:
                     raise LostAnchor('proof anchor %r matched %d times in %s' % (rx, len(ms), self.name))
                 pos = ms[0].start() if kind == 'before' else ms[0].end()
                 body = body[:pos] + text + body[pos:]
+        for itn, cur in R27A_LATE.pop(self.name, []):
+            body = body.replace(itn, cur)
         text = self.pre + self.wrap[0] + '\n' + self.header.rstrip() + '\n' + body + '\n' + self.wrap[1] + '\n'
         self.info = dict(unit=self.name, file='rust/ommx/src/' + self.file, line=f['line'], src_sha256=f['src_sha'],
                          extracted_sha256=hashlib.sha256(body.encode()).hexdigest()[:16],
